@@ -54,7 +54,7 @@ impl UnaryParser {
                         },
                         TokenType::Money(money, currency) => {
                             parser.consume_token();
-                            return Ok(SmartCalcAstType::PrefixUnary(operator, Rc::new(SmartCalcAstType::PrefixUnary(operator, Rc::new(SmartCalcAstType::Item(Rc::new(MoneyItem(*money, currency.clone()))))))));
+                            return Ok(SmartCalcAstType::PrefixUnary(operator, Rc::new(SmartCalcAstType::Item(Rc::new(MoneyItem(*money, currency.clone()))))));
                         },
                         TokenType::Operator('(') => {
                             return match PrimativeParser::parse_parenthesis(parser) {
